@@ -229,3 +229,10 @@ def run(ctx):
     for k in ("Ramp", "Arc", "Concave", "Sigmoid"):
         ctx.require(f"piece:{k}:y<h/2:incr", f"piece:{k}:y<h/2:decr")
     ctx.require("refused:Triangle", "refused:Constant", "refused:Function", "refused:Linear", "hook:Term.tsukamoto(default)")
+
+
+def passive(ctx, fl, probe):
+    """attach this property's always-on monitor to a foreign workload (the repository's test-suite, see vf/pytest_plugin.py)"""
+    mon = TsukamotoMonitor(ctx, fl)
+    mon.install(probe)
+    return mon.check_monotone
